@@ -150,13 +150,7 @@ def minimise(prop, template, base_dir, ops, seed_tag, target_cls, budget_s):
                 break
             n = min(len(best), n * 2)
     # 3. simplify operation arguments
-    simple = {
-        "fault": None,
-        "path_as": "str",
-        "audio_as": "str",
-        "api": "io",
-        "type_arg": False,
-    }
+    simple = getattr(sim_kind(prop), "SIMPLIFY", {})
     for i, op in enumerate(list(best)):
         for key, value in simple.items():
             if key in op and op[key] != value and time.monotonic() < deadline:
